@@ -3,6 +3,8 @@
 struct Scan {
     /// a `break` of the loop being scanned (not of a loop nested in it)
     has_break: bool,
+    /// a `continue` of the loop being scanned (not of a loop nested in it)
+    has_continue: bool,
     has_exit: bool,
     assigned: Vec<Expr>,
     /// receivers of `<place>.push(x)`: rewrites of the list when the translator models its elements
@@ -17,11 +19,13 @@ impl<'ast> syn::visit::Visit<'ast> for Scan {
         match e {
             Expr::Return(_) | Expr::Try(_) => self.has_exit = true,
             Expr::Break(_) => self.has_break = true,
+            Expr::Continue(_) => self.has_continue = true,
             Expr::ForLoop(_) | Expr::Loop(_) | Expr::While(_) => {
-                // a `break` in there leaves that loop, not this one
-                let saved = self.has_break;
+                // a `break` / `continue` in there belongs to that loop, not this one
+                let saved = (self.has_break, self.has_continue);
                 syn::visit::visit_expr(self, e);
-                self.has_break = saved;
+                self.has_break = saved.0;
+                self.has_continue = saved.1;
                 return;
             }
             Expr::Assign(a) => self.assigned.push((*a.left).clone()),
@@ -54,6 +58,19 @@ impl<'ast> syn::visit::Visit<'ast> for Scan {
         }
         syn::visit::visit_expr(self, e);
     }
+    fn visit_local(&mut self, l: &'ast syn::Local) {
+        // `let x = &mut LIST[i];`: the element may be written through `x`
+        if let Some(init) = &l.init {
+            if let Expr::Reference(r) = &*init.expr {
+                if r.mutability.is_some() {
+                    if let Expr::Index(_) = &*r.expr {
+                        self.assigned.push((*r.expr).clone());
+                    }
+                }
+            }
+        }
+        syn::visit::visit_local(self, l);
+    }
 }
 
 /// `LIST[i].field` / `LIST.last_mut().unwrap().field` as an assignment target: (the list expression, the index if any, the field).
@@ -77,13 +94,13 @@ fn rec_elem_target(t: &Expr) -> Option<(&Expr, Option<&Expr>, String)> {
 }
 
 fn scan_block(b: &syn::Block) -> Scan {
-    let mut s = Scan { has_break: false, has_exit: false, assigned: vec![], pushed: vec![], place_calls: vec![], calls: false };
+    let mut s = Scan { has_break: false, has_continue: false, has_exit: false, assigned: vec![], pushed: vec![], place_calls: vec![], calls: false };
     syn::visit::Visit::visit_block(&mut s, b);
     s
 }
 
 fn scan_expr(e: &Expr) -> Scan {
-    let mut s = Scan { has_break: false, has_exit: false, assigned: vec![], pushed: vec![], place_calls: vec![], calls: false };
+    let mut s = Scan { has_break: false, has_continue: false, has_exit: false, assigned: vec![], pushed: vec![], place_calls: vec![], calls: false };
     syn::visit::Visit::visit_expr(&mut s, e);
     s
 }
@@ -193,6 +210,32 @@ impl<'a> Cx<'a> {
                 if let Expr::Field(f) = t {
                     if matches!(&f.member, syn::Member::Named(n) if n == "caller") {
                         continue;
+                    }
+                }
+            }
+            if let Expr::Unary(u) = t {
+                if let (UnOp::Deref(_), Expr::Path(pp)) = (&u.op, &*u.expr) {
+                    let n = path_segments(&pp.path).join("::");
+                    if self.lookup(&n).is_none() && !self.aliases.contains_key(&n) && !self.struct_params.contains_key(&n) && n != "self" {
+                        // `*x = v` through a reference declared inside (`let x = &mut LIST[i];` is recorded as a write of LIST[i])
+                        continue;
+                    }
+                }
+            }
+            if let Expr::Index(ix) = t {
+                if let Expr::Path(pp) = &*ix.expr {
+                    let n = path_segments(&pp.path).join("::");
+                    if pp.path.segments.len() == 1 && n != "self" && !self.struct_params.contains_key(&n) && !self.aliases.contains_key(&n) {
+                        match self.lookup(&n) {
+                            Some(Var { ty: LT::List(_), .. }) => {
+                                if !out.contains(&(n.clone(), false)) {
+                                    out.push((n, false));
+                                }
+                                continue;
+                            }
+                            Some(_) => return self.un(format!("assignment target `{}` not modelled", toks(t))),
+                            None => continue, // a list declared inside
+                        }
                     }
                 }
             }
@@ -308,6 +351,13 @@ impl<'a> Cx<'a> {
     fn places_written_through(&mut self, recv: &Expr, m: &str) -> Vec<String> {
         let rp = match self.path_of(recv) {
             Some(p) if p.contains('.') => p,
+            Some(p) if p == "self" && self.self_ty.as_deref().map(|o| INLINE_SELF_CALL_OWNERS.contains(&o)).unwrap_or(false) => {
+                let head = self.self_ty.clone().unwrap();
+                return match self.callees.get(&format!("{}::{}", head, m)) {
+                    Some(s) if s.simple || s.simple_fuel => s.written.clone(),
+                    _ => vec![],
+                };
+            }
             _ => return vec![],
         };
         let comps: Vec<String> = rp.split('.').skip(1).map(|s| s.to_string()).collect();
@@ -421,7 +471,75 @@ impl<'a> Cx<'a> {
         false
     }
 
+    /// The Lean variable that currently holds a list which may be rewritten: a local vector, or a `self` place that is written.
+    fn list_lvalue(&mut self, base: &Expr) -> R<Var> {
+        let base = match base {
+            Expr::Paren(p) => &*p.expr,
+            Expr::Reference(r) => &*r.expr,
+            other => other,
+        };
+        if let Expr::Path(pp) = base {
+            if pp.path.segments.len() == 1 {
+                let n = pp.path.segments[0].ident.to_string();
+                if let Some(v) = self.lookup(&n) {
+                    if matches!(v.ty, LT::List(_)) {
+                        return Ok(v);
+                    }
+                }
+            }
+        }
+        if let Some(p) = self.path_of(base) {
+            if self.vm_mode && vm_place(&p).is_some() {
+                return self.un(format!("list `{}` is a component of the abstract interpreter state", p));
+            }
+            if !self.written.contains(&p) {
+                return self.un(format!("internal: write to `{}` missed by the pre-pass", p));
+            }
+            let v = self.place(&p)?;
+            if matches!(v.ty, LT::List(_)) {
+                return Ok(v);
+            }
+        }
+        self.un(format!("`{}` is not a list the translator can rewrite", toks(base)))
+    }
+
+    /// `name` as introduced by `let name = &mut LIST[i];`
+    fn elem_alias_of(&self, e: &Expr) -> Option<(Expr, Expr)> {
+        let e = match e {
+            Expr::Paren(p) => &*p.expr,
+            Expr::Unary(u) if matches!(u.op, UnOp::Deref(_)) => &*u.expr,
+            other => other,
+        };
+        if let Expr::Path(pp) = e {
+            if pp.path.segments.len() == 1 {
+                let n = pp.path.segments[0].ident.to_string();
+                if self.lookup(&n).is_none() {
+                    return self.elem_aliases.get(&n).cloned();
+                }
+            }
+        }
+        None
+    }
+
     fn assign_to(&mut self, target: &Expr, value: Tx, rest: &[Stmt], k: &Kont) -> R<String> {
+        if let Some((l, i)) = self.elem_alias_of(target) {
+            // `*x = v` where `let x = &mut LIST[i];`
+            let lv = self.list_lvalue(&l)?;
+            let et = match &lv.ty {
+                LT::List(t) => (**t).clone(),
+                _ => unreachable!(),
+            };
+            if et != value.ty {
+                return self.un(format!("assignment through `{}`: modelled types differ ({:?} / {:?})", toks(target), et, value.ty));
+            }
+            let ix = self.expr(&i, Some(&LT::I("usize")))?;
+            let mut pre = value.pre;
+            pre.extend(ix.pre);
+            let v = self.fresh("t");
+            pre.push(Pre::Bind(v.clone(), format!("(Rs.setIdx {} {} {})", lv.lean, ix.term, value.term)));
+            let body = self.block(rest, k)?;
+            return Ok(wrap_pre(&pre, format!("(let {} := {};\n  {})", lv.lean, v, body)));
+        }
         if self.vm_mode {
             if let Some(p) = self.path_of(target).or_else(|| Some(compact(&toks(target)))) {
                 if let Some((term, ty)) = vm_place(&p) {
@@ -555,6 +673,26 @@ impl<'a> Cx<'a> {
             }
         }
         if let Expr::Index(ix) = target {
+            if let Expr::Path(pp) = &*ix.expr {
+                if pp.path.segments.len() == 1 {
+                    if let Some(lv @ Var { ty: LT::List(_), .. }) = self.lookup(&pp.path.segments[0].ident.to_string()) {
+                        let et = match &lv.ty {
+                            LT::List(t) => (**t).clone(),
+                            _ => unreachable!(),
+                        };
+                        if et != value.ty {
+                            return self.un(format!("element assignment into `{}`: modelled types differ", toks(&*ix.expr)));
+                        }
+                        let i = self.expr(&ix.index, Some(&LT::I("usize")))?;
+                        let mut pre = i.pre;
+                        pre.extend(value.pre);
+                        let v = self.fresh("t");
+                        pre.push(Pre::Bind(v.clone(), format!("(Rs.setIdx {} {} {})", lv.lean, i.term, value.term)));
+                        let body = self.block(rest, k)?;
+                        return Ok(wrap_pre(&pre, format!("(let {} := {};\n  {})", lv.lean, v, body)));
+                    }
+                }
+            }
             if let Some(p) = self.path_of(&ix.expr) {
                 let cur = self.place(&p)?;
                 let i = self.expr(&ix.index, Some(&LT::I("usize")))?;
@@ -617,7 +755,8 @@ impl<'a> Cx<'a> {
         let else_scan = i.else_branch.as_ref().map(|(_, e)| scan_expr(e));
         let exits = then_scan.has_exit
             || else_scan.as_ref().map(|s| s.has_exit).unwrap_or(false)
-            || (!self.for_konts.is_empty() && (then_scan.has_break || else_scan.as_ref().map(|s| s.has_break).unwrap_or(false)));
+            || (!self.for_konts.is_empty() && (then_scan.has_break || else_scan.as_ref().map(|s| s.has_break).unwrap_or(false)))
+            || (!self.cont_konts.is_empty() && (then_scan.has_continue || else_scan.as_ref().map(|s| s.has_continue).unwrap_or(false)));
         let value_tail = is_tail && rest.is_empty() && i.else_branch.is_some() && matches!(k, Kont::Return);
         if exits || value_tail {
             // inline the rest of the enclosing block into both branches
@@ -653,7 +792,7 @@ impl<'a> Cx<'a> {
             return Ok(wrap_pre(&c.pre, format!("(if {} then\n  {}\n  else\n  {})", c.term, t, f)));
         }
         // no exits: the branches meet again; the assigned variables are handed over as a tuple
-        let mut all = Scan { has_break: false, has_exit: false, assigned: then_scan.assigned.clone(), pushed: then_scan.pushed.clone(), place_calls: then_scan.place_calls.clone(), calls: then_scan.calls };
+        let mut all = Scan { has_break: false, has_continue: false, has_exit: false, assigned: then_scan.assigned.clone(), pushed: then_scan.pushed.clone(), place_calls: then_scan.place_calls.clone(), calls: then_scan.calls };
         if let Some(s) = &else_scan {
             all.assigned.extend(s.assigned.clone());
             all.pushed.extend(s.pushed.clone());
@@ -979,6 +1118,36 @@ impl<'a> Cx<'a> {
                         }
                     }
                 }
+                // `let x = &mut LIST[i];` with `i` an immutable local: `x` stands for that element from here on
+                if let Expr::Reference(r) = &init {
+                    if r.mutability.is_some() {
+                        if let Expr::Index(ix) = &*r.expr {
+                            let idx_ok = match &*ix.index {
+                                Expr::Path(pp) if pp.path.segments.len() == 1 => {
+                                    let n = pp.path.segments[0].ident.to_string();
+                                    // the index variable must not be assigned in what follows
+                                    let reassigned = rest.iter().any(|st| {
+                                        let mut sc = Scan { has_break: false, has_continue: false, has_exit: false, assigned: vec![], pushed: vec![], place_calls: vec![], calls: false };
+                                        syn::visit::Visit::visit_stmt(&mut sc, st);
+                                        sc.assigned.iter().any(|t| compact(&toks(t)) == n)
+                                    });
+                                    self.lookup(&n).is_some() && !reassigned
+                                }
+                                _ => false,
+                            };
+                            if !idx_ok {
+                                return self.un("`let x = &mut LIST[i]` where `i` is not an unchanging local");
+                            }
+                            self.list_lvalue(&ix.expr)?;
+                            self.scopes.last_mut().unwrap().remove(&name);
+                            if self.lookup(&name).is_some() {
+                                return self.un(format!("`let {} = &mut LIST[i]` shadows a local of an enclosing scope", name));
+                            }
+                            self.elem_aliases.insert(name.clone(), ((*ix.expr).clone(), (*ix.index).clone()));
+                            return self.block(rest, k);
+                        }
+                    }
+                }
                 // alias of a place: `let borrowed = self.iterable.borrow();`
                 if let Some(p) = self.path_of(&init) {
                     let comps: Vec<String> = p.split('.').skip(1).map(|s| s.to_string()).collect();
@@ -1085,6 +1254,10 @@ impl<'a> Cx<'a> {
                         let out = self.finish(&kont, None)?;
                         Ok(format!("(let {} := true;\n  {})", lean, out))
                     }
+                    Expr::Continue(c) if c.label.is_none() && !self.cont_konts.is_empty() => {
+                        let kont = self.cont_konts.last().cloned().unwrap();
+                        self.finish(&kont, None)
+                    }
                     // `v.push(x);` on a local vector
                     Expr::MethodCall(mc)
                         if mc.method == "push"
@@ -1153,6 +1326,15 @@ impl<'a> Cx<'a> {
                         Ok(wrap_pre(&tx.pre, body))
                     }
                     Expr::MethodCall(_) | Expr::Call(_) if semi.is_some() => {
+                        // a translated method of the object itself (owners listed in INLINE_SELF_CALL_OWNERS), called for its effect
+                        if let Expr::MethodCall(mc) = e {
+                            if self.path_of(&mc.receiver).as_deref() == Some("self") {
+                                if let Some(tx) = self.call_translated_on_place(mc)? {
+                                    let body = self.block(rest, k)?;
+                                    return Ok(wrap_pre(&tx.pre, body));
+                                }
+                            }
+                        }
                         // a translated plain callee used for its value is handled by `expr`; a statement call is an effect
                         self.opaque_call(e, rest, k)
                     }
@@ -1487,13 +1669,73 @@ impl<'a> Cx<'a> {
             }
             other => vec![self.simple_pat(other)?.0],
         };
-        let xs = self.expr(&f.expr, None)?;
+        // `for x in LIST.iter_mut()`: every pass may rewrite its element (`Rs.forInMut`)
+        let mut_base: Option<Expr> = match &*f.expr {
+            Expr::MethodCall(m) if m.method == "iter_mut" && m.args.is_empty() => Some((*m.receiver).clone()),
+            _ => None,
+        };
+        let xs = match &mut_base {
+            Some(b) => {
+                let lv = self.list_lvalue(b)?;
+                pure(lv.lean, lv.ty)
+            }
+            None => self.expr(&f.expr, None)?,
+        };
         let elem = match &xs.ty {
             LT::List(t) => (**t).clone(),
             t => return self.un(format!("`for` over {:?} not modelled", t)),
         };
         let scan = scan_block(&f.body);
         let mut vars = self.assigned_outer(&scan, true)?;
+        if let Some(b) = &mut_base {
+            if scan.has_exit || scan.has_break || names.len() != 1 || vars.is_empty() {
+                return self.un("`for x in LIST.iter_mut()` with an exit, a `break`, a tuple pattern or no carried state not modelled");
+            }
+            if !matches!(elem, LT::Opt(_)) {
+                return self.un("`for x in LIST.iter_mut()` over elements that are not options not modelled");
+            }
+            // the list itself must not be touched by the body other than through the loop variable
+            let btxt = compact(&toks(b));
+            if compact(&toks(&f.body)).contains(&btxt) {
+                return self.un("`for x in LIST.iter_mut()` whose body names LIST");
+            }
+            let init = self.join_names(&vars)?;
+            let snapshot = self.snapshot();
+            self.scopes.push(BTreeMap::new());
+            let lx = self.declare(&names[0], elem.clone());
+            let sv = self.fresh("s");
+            let lets = self.rebind_joined(&vars, &sv)?;
+            let mut vars_mut = vec![(names[0].clone(), false)];
+            vars_mut.extend(vars.iter().cloned());
+            let kb = Kont::Join(vars_mut);
+            self.cont_konts.push(kb.clone());
+            let body = self.block(&seal(f.body.stmts.clone()), &kb);
+            self.cont_konts.pop();
+            let body = body?;
+            self.scopes.pop();
+            self.restore(&snapshot);
+            let lv = self.list_lvalue(b)?;
+            let jm = self.fresh("jm");
+            let jv = self.fresh("j");
+            let lets_after = self.rebind_joined(&vars, &jv)?;
+            let after = self.block(rest, k)?;
+            return Ok(format!(
+                "(Rs.M.bind (Rs.forInMut {} {} fun {} {} =>\n  {}{}) fun {} =>\n  let {} := {}.1;\n  let {} := {}.2;\n  {}{})",
+                xs.term,
+                Self::tuple_text(&init),
+                lx,
+                sv,
+                lets,
+                body,
+                jm,
+                lv.lean,
+                jm,
+                jv,
+                jm,
+                lets_after,
+                after
+            ));
+        }
         // a `break` is a flag carried with the state: once it is set the remaining passes do nothing
         let brk = if scan.has_break {
             let b = self.fresh("brk");
@@ -1543,7 +1785,9 @@ impl<'a> Cx<'a> {
             if let Some(b) = &brk {
                 self.for_konts.push((kb.clone(), b.clone()));
             }
+            self.cont_konts.push(kb.clone());
             let body = self.block(&seal(f.body.stmts.clone()), &kb);
+            self.cont_konts.pop();
             let skip = self.finish(&kb, None);
             if brk.is_some() {
                 self.for_konts.pop();
@@ -1582,7 +1826,9 @@ impl<'a> Cx<'a> {
         if let Some(b) = &brk {
             self.for_konts.push((kb.clone(), b.clone()));
         }
+        self.cont_konts.push(kb.clone());
         let body = self.block(&seal(f.body.stmts.clone()), &kb);
+        self.cont_konts.pop();
         let skip = self.finish(&kb, None);
         if brk.is_some() {
             self.for_konts.pop();
